@@ -30,7 +30,7 @@ def spec(frm_dir, to_path, variant):
     return rel
 
 
-def build(n, edges, kinds, layout=0, variant=0):
+def build(n, edges, kinds, layout=0, variant=0, dup=False, relay=False):
     """module 0 is main. Module k exports v<k> (a string computed at load time from what it imports), a
     counter c<k> with bump<k>() / get<k>() (live-binding views), a default function, plus whatever its
     're-export' and 'export *' edges add. The main module imports every name its named/namespace edges make
@@ -54,10 +54,14 @@ def build(n, edges, kinds, layout=0, variant=0):
             elif kind == "star":
                 for nm, org in exports[b].items():
                     ex.setdefault(nm, org)
+        if relay and out_edges[k]:
+            b0 = out_edges[k][0][0]
+            ex["lc%d" % k] = ("c", b0)
+            ex["lb%d" % k] = ("bump", b0)
         exports[k] = ex
     vstr = {}
     for k in reversed(range(n)):
-        vstr[k] = "%d[%s]" % (k, ",".join(vstr[b] for b, _ in out_edges[k]))
+        vstr[k] = "%d[%s]" % (k, ",".join([vstr[b] for b, _ in out_edges[k]] + (["same"] if dup and len(out_edges[k]) >= 2 else [])))
     counters = {k: 0 for k in range(n)}
     srcs = {}
     deps = {}
@@ -109,6 +113,17 @@ def build(n, edges, kinds, layout=0, variant=0):
                     for nm in calls:
                         counters[exports[b][nm][1]] += 1
                     live_expected.append("+".join(sorted(names + ["default"])) + "=" + "/".join(str(counters[exports[b][nm][1]]) for nm in rds))
+        if dup and len(out_edges[k]) >= 2:
+            # the first dependency is imported a second time, in another spelling, AFTER the other imports (the
+            # request list must still name it once), and once more right next to itself
+            b0 = out_edges[k][0][0]
+            lines.append("import { v%d as dupA%d } from '%s';" % (b0, k, spec(d, paths[b0], 2)))
+            lines.append("import { v%d as dupB%d } from '%s';" % (b0, k, spec(d, paths[b0], 1)))
+            reads.append("(dupA%d === dupB%d ? 'same' : 'DIFF')" % (k, k))
+        if relay and out_edges[k]:
+            # an imported binding handed on through a local export list: importers must see the live value
+            b0 = out_edges[k][0][0]
+            lines.append("import { c%d as relayc%d, bump%d as relayb%d } from '%s'; export { relayc%d as lc%d, relayb%d as lb%d };" % (b0, k, b0, k, spec(d, paths[b0], 0), k, k, k, k))
         lines.append("console.log('run:%s');" % pk)
         lines.append("export const v%d = '%d[' + [%s].join(',') + ']';" % (k, k, ", ".join(reads)))
         lines.append("export let c%d = 0; export function bump%d(){ c%d++; } export function get%d(){ return c%d; }" % (k, k, k, k, k))
@@ -153,6 +168,19 @@ def cases(tier):
                 g["id"] = "dag%d|%s|%s" % (n, "".join("%d%d" % e for e in es), ",".join(ks))
                 g["mode"] = "subsets"
                 cs.append(g)
+    # repeated imports of one module (other spellings, non-adjacent and adjacent) and imported bindings handed on
+    # through a local export list, on every small DAG shape with a fixed rotation of import kinds
+    for n in (3, 4):
+        for gi, es in enumerate(reachable_dags(n)):
+            for r in range(2 if tier == "quick" else len(KINDS)):
+                ks = tuple(KINDS[(i + r + gi) % len(KINDS)] for i in range(len(es)))
+                for opt in ("dup", "relay", "dup+relay"):
+                    if "dup" in opt and not any(sum(1 for a, _ in es if a == k) >= 2 for k in range(n)):
+                        continue
+                    g = build(n, es, ks, layout=(gi + r) % 3, variant=(gi + r) % 4, dup="dup" in opt, relay="relay" in opt)
+                    g["id"] = "dagx%d|%s|%s|%s" % (n, "".join("%d%d" % e for e in es), ",".join(ks), opt)
+                    g["mode"] = "subsets"
+                    cs.append(g)
     # larger families, one module at a time + batches
     fams = {}
     for n in ([5, 6] if tier == "quick" else [5, 6, 7, 8]):
